@@ -20,11 +20,15 @@
 //    that owns the tag / iovector; the body must go into the iovector of the call that owns the tag; plus ASan
 //  4 get_queue_count()==0 at quiescence of every round; stuck detector (supervisor).
 //
-// Sub-workloads: "benign" executions never let a follower's deadline fall inside a collect interval (short deadlines
-// are only given to calls whose response is withheld, while a long-lived leader keeps the followers parked); they
-// must be completely clean. "straddle" executions (exec % 4 == 3) aim a follower's deadline between header and body /
-// mid-body. The monitor fires at the return mark, before anything is freed; the execution then reports and ends
-// (continuing would let the leader scribble on freed memory).
+// Sub-workloads (one per execution, so that the two reproduced defects do not hide everything else):
+//  benign   - no follower deadline can fall inside a collect interval: short deadlines are only given to calls whose response
+//             is withheld until the call has really returned, while a long-lived leader (its answer is held back by the peer)
+//             keeps the followers parked; no response can overtake its request. Must be completely clean.
+//  straddle - (exec % 8 == 3) a follower's deadline is aimed between header and body / mid-body.
+//  early    - (exec % 8 == 7) the stream's writev returns only some time after the last byte is out (zero-copy style), so a
+//             response can arrive before the request's send has returned.
+// The monitor fires at the "call returned" mark, before anything is freed; the execution then reports and ends (continuing
+// would let the leader scribble on freed memory and kill the process under ASan with an unstable report).
 #include "vh.h"
 #include <photon/rpc/rpc.h>
 #include <photon/common/iovector.h>
